@@ -53,7 +53,7 @@ func (m *gmodel) step(op world.Op) bool {
 	}
 	t := Targets[op.T]
 	switch op.K {
-	case "apply", "ret", "when", "cancel":
+	case "apply", "ret", "retseq", "when", "cancel":
 		// one lookup path per target and history: two paths create two unrelated mockers
 		g := m.g(op.T)
 		if op.N < 0 || op.N >= t.NumHow || (g.how >= 0 && g.how != op.N) {
@@ -92,7 +92,7 @@ func (m *gmodel) step(op world.Op) bool {
 			g.handle, g.handleDead, g.handleMode = true, false, false
 		}
 		g.kind, g.owner, g.touched, g.stubEpoch, g.nClauses = kCb, op.B, op.B, false, 0
-	case "ret":
+	case "ret", "retseq":
 		g := m.g(op.T)
 		if !m.usable(op.T, op.B) || g.stubEpoch || t.Typ.NumOut() == 0 {
 			return false
@@ -170,7 +170,7 @@ func (m *gmodel) step(op world.Op) bool {
 		return false
 	}
 	switch op.K {
-	case "apply", "ret", "when", "cancel":
+	case "apply", "ret", "retseq", "when", "cancel":
 		m.g(op.T).how = op.N
 	}
 	return true
@@ -186,7 +186,7 @@ func ResolveNames(p *world.Plan) {
 				continue
 			}
 			switch op.K {
-			case "apply", "ret", "when", "cancel", "call", "bad":
+			case "apply", "ret", "retseq", "when", "cancel", "call", "bad":
 				for _, t := range Targets {
 					if t.Name == op.S {
 						op.T = t.Idx
@@ -295,6 +295,9 @@ func (W) Gen(prop string, seed uint64, tier string) *world.Plan {
 			}
 		case 1:
 			op = world.Op{K: "ret", B: pickB(t), T: t, N: howOf[t], V: r.U64(), W: r.U64()}
+			if r.Chance(250) {
+				op.K = "retseq"
+			}
 		case 2:
 			op = world.Op{K: "when", B: pickB(t), T: t, N: howOf[t], V: r.U64(), W: r.U64()}
 		case 3:
@@ -325,7 +328,7 @@ func (W) Gen(prop string, seed uint64, tier string) *world.Plan {
 		case 9:
 			op = world.Op{K: "dropref", B: r.Intn(nB)}
 		case 10:
-			op = world.Op{K: "bad", B: pickB(t), T: t, N: r.Intn(12), V: r.U64(), W: r.U64()}
+			op = world.Op{K: "bad", B: pickB(t), T: t, N: r.Intn(14), V: r.U64(), W: r.U64()}
 		case 11:
 			op = world.Op{K: "log", N: r.Intn(3)}
 		}
